@@ -67,11 +67,12 @@ def feasibility_oracle(ctx: Ctx, problem, zones):
             levels = [hi for _, lo, hi, _ in us]
             if len({round(x, 3) for x in levels}) != len(levels):
                 continue
-            # restrict the profile to this side of the pinch
+            # the load profile of this side: the pocket-free GCC on its side of the pinch, zero beyond it
+            # (a band that straddles the pinch may not release heat on the wrong side)
             if side == "hot":
-                rows = [(t, v) for t, v in zip(zd["T"], zd["NPa"]) if t >= pinch - 1e-9]
+                rows = [(t, v if t >= pinch - 1e-9 else 0.0) for t, v in zip(zd["T"], zd["NPa"])]
             else:
-                rows = [(t, v) for t, v in zip(zd["T"], zd["NPa"]) if t <= pinch + 1e-9]
+                rows = [(t, v if t <= pinch + 1e-9 else 0.0) for t, v in zip(zd["T"], zd["NPa"])]
             if len(rows) < 2:
                 continue
             Ts, Vs = [r[0] for r in rows], [r[1] for r in rows]
